@@ -160,6 +160,14 @@ def run(rep: vlib.Reporter, tier: str, seed: int) -> None:
             else:
                 rep.finding(f"mp:{key}", what, replay)
                 found = True
+    # the Flight store as MULTIPROCESSING uses it: replacing a key is atomic for concurrent readers (harness/flight_atomic.py)
+    from harness import flight_atomic
+    fa = flight_atomic.check(40 if big else 12)
+    for p_ in fa:
+        rep.finding(f"flight-atomic:{p_[:100]}", "Flight store: " + p_, {"kind": "flight-atomic", "problem": p_})
+        found = True
+    dist["flight_store_atomicity"] = {"problems": len(fa), **getattr(flight_atomic.check, "stats", {})}
+    n_eval += getattr(flight_atomic.check, "stats", {}).get("gets", 0)
     stop_flight_server()
     for k in bad_gated[:5]:
         i, j = gated_idx[k]
@@ -184,6 +192,11 @@ def run(rep: vlib.Reporter, tier: str, seed: int) -> None:
 def replay(path: str) -> int:
     from harness import c01
     r = json.load(open(path))["replay"]
+    if r.get("kind") == "flight-atomic":
+        from harness import flight_atomic
+        print(flight_atomic.check(20))
+        stop_flight_server()
+        return 0
     if r.get("kind") == "gated":
         return c01.replay(path)
     from mloda.user import ParallelizationMode
